@@ -387,7 +387,12 @@ func genISOTree(r *rand.Rand, parent, name string, opt tree.GenOpt, ps3 bool) (s
 		if !has {
 			keep[r.Intn(len(keep))] = "TITLE_ID"
 		}
-		must(os.WriteFile(filepath.Join(root, "PS3_GAME", "PARAM.SFO"), makeSFO(fields, keep), 0o644))
+		var keyOrder []string
+		if r.Intn(2) == 0 {
+			keyOrder = append([]string{}, keep...)
+			r.Shuffle(len(keyOrder), func(i, j int) { keyOrder[i], keyOrder[j] = keyOrder[j], keyOrder[i] })
+		}
+		must(os.WriteFile(filepath.Join(root, "PS3_GAME", "PARAM.SFO"), makeSFOKeyOrder(fields, keep, keyOrder), 0o644))
 	}
 	return root, n
 }
